@@ -256,7 +256,48 @@ func runConcCase(raw json.RawMessage, w *TraceWriter) {
 		panic(err)
 	}
 	w.Ev("reset", "g", cs.G)
+	recycleProbe(w)
 	runStress(cs, w)
+}
+
+// wordsZero reports whether the first n machine words of the object at p are zero.
+func wordsZero(p unsafe.Pointer, n int) bool {
+	ws := unsafe.Slice((*uintptr)(p), n)
+	for _, x := range ws {
+		if x != 0 {
+			return false
+		}
+	}
+	return true
+}
+
+// recycleProbe (single goroutine, before the stress run): after Recycle/Release a pooled object must not
+// reference its last user's reader or data (the model's ResetOnRecycle). Read through the retained pointer;
+// layouts: BufferReader{r iface}, BufferWriter{w iface}, SkipDecoder{r iface; rn int}, BytesSkipDecoder{n int; b []byte},
+// ReaderSkipDecoder{r iface; n int; b []byte (kept on purpose)}.
+func recycleProbe(w *TraceWriter) {
+	data := []byte{0, 0, 0, 1, 65}
+	br := thrift.NewBufferReader(bufiox.NewBytesReader(data))
+	br.ReadString()
+	br.Recycle()
+	w.Ev("recycled", "typ", "BufferReader", "clean", wordsZero(unsafe.Pointer(br), 2))
+	var sink []byte
+	bw := thrift.NewBufferWriter(bufiox.NewBytesWriter(&sink))
+	bw.WriteBool(true)
+	bw.Recycle()
+	w.Ev("recycled", "typ", "BufferWriter", "clean", wordsZero(unsafe.Pointer(bw), 2))
+	sd := thrift.NewSkipDecoder(bufiox.NewBytesReader(data))
+	sd.Next(thrift.STRING)
+	sd.Release()
+	w.Ev("recycled", "typ", "SkipDecoder", "clean", wordsZero(unsafe.Pointer(sd), 3))
+	bd := thrift.NewBytesSkipDecoder(data)
+	bd.Next(thrift.STRING)
+	bd.Release()
+	w.Ev("recycled", "typ", "BytesSkipDecoder", "clean", wordsZero(unsafe.Pointer(bd), 4))
+	rd := thrift.NewReaderSkipDecoder(&dataSource{data: data})
+	rd.Next(thrift.STRING)
+	rd.Release()
+	w.Ev("recycled", "typ", "ReaderSkipDecoder", "clean", wordsZero(unsafe.Pointer(rd), 3))
 }
 
 func sigConc(raw json.RawMessage, line string) string {
